@@ -236,7 +236,7 @@ func TestVerifC10(t *testing.T) {
 				if e < 0 {
 					continue
 				}
-				for _, m := range [][2]int64{{5, 100}, {0, 1}, {1, 1}, {1, 2}} {
+				for _, m := range [][2]int64{{5, 100}, {0, 1}, {1, 1}, {1, 2}, {54, 1000}, {3, 1000}, {74, 1000}} {
 					c10Tol(tr, e, f, s, m[0], m[1])
 				}
 			}
@@ -250,6 +250,9 @@ func TestVerifC10(t *testing.T) {
 		s := int64(r.Intn(20)) * vh.Pick(r, []int64{sec, min})
 		e := int64(r.Intn(7200)) * vh.Pick(r, []int64{1, sec, min})
 		m := int64(r.Intn(101))
+		if r.Bool(30) {
+			c10Tol(tr, e, f, s, int64(r.Intn(1001)), 1000)
+		}
 		c10Tol(tr, e, f, s, m, 100)
 		e2 := e + int64(r.Intn(3600))*vh.Pick(r, []int64{1, sec, min})
 		tr.Op("tolpair %d %d %s %d %d", e, e2, vh.RatStr(float64(m)/100), f, s)
